@@ -259,6 +259,12 @@ fn gen(rng: &mut Rng, n: usize, tier: &str) -> Vec<Req> {
         };
         reqs.push(Req::new(clean_req(&cfg, d), "foreign"));
     }
+    // every builder list method on every listed name, alone and in the documented precedences
+    let mut bm = Vec::new();
+    gen::builder_matrix(rng, &mut bm);
+    for (cfg, d) in &bm {
+        reqs.push(Req::new(clean_req(cfg, d), "builder"));
+    }
     // random documents × random configurations
     for i in 0..n {
         let cfg = gen::gen_cfg(rng);
